@@ -4330,6 +4330,23 @@ class FlowIR(object):
 
         return comp
 
+    @classmethod
+    def stage_weights_add_to_one(cls, weights):
+        # type: (List[float]) -> bool
+        """Returns True iff all stage weights are non-negative and add up to exactly one.
+
+        The weights are compared as the decimal numbers they were written as (e.g. 0.3333 + 0.6667) so that
+        neither the number of decimals nor binary floating point rounding affect the outcome.
+        """
+        import fractions
+
+        try:
+            return (all(e >= 0 for e in weights)
+                    and sum(fractions.Fraction(repr(float(e))) for e in weights) == 1)
+        except (ValueError, OverflowError):
+            # VV: nan and infinity are not valid weights
+            return False
+
     def inject_default_values(self, components_too=True):
         flowir = self.override_object(self.default_flowir_structure(), deep_copy(self.flowir))
         interface = flowir.get(FlowIR.FieldInterface)
@@ -4414,10 +4431,8 @@ class FlowIR(object):
 
                 weights.append(stage_weight)
 
-            # VV: adding floats is hard, let's assume that there're at most 2 decimals
-            int_weights = [int(e * 1000) for e in weights]
-
-            if sum(int_weights) != 1000 or any(e < 0 for e in weights):
+            # VV: adding floats is hard, compare the weights as the decimal numbers they were written as
+            if not self.stage_weights_add_to_one(weights):
                 fallbackWeight = int(1000 / num_stages) / 1000.0
 
                 flowirLogger.log(19, "Stage weights do not add to one: %s = %3.3lf\n" % (weights, sum(weights)))
